@@ -119,9 +119,9 @@ type tentr struct {
 }
 
 type cres struct {
-	KV  *[2]hx  `json:"kv,omitempty"` // key/value returned (value null for nil)
+	KV  *[2]hx  `json:"kv,omitempty"`  // key/value returned (value null for nil)
 	Nil bool    `json:"nil,omitempty"` // nil key returned
-	E   *string `json:"e,omitempty"`  // error class of Delete ("nil" = no error)
+	E   *string `json:"e,omitempty"`   // error class of Delete ("nil" = no error)
 }
 
 type result struct {
@@ -331,9 +331,9 @@ func pathKey(p []hx) string {
 // txCtx carries what the oracle tracks inside one transaction.
 type txCtx struct {
 	writable bool
-	r        *gen.R             // decides where the (costly) namespace check runs; nil on the reader of an overlap
-	writes   map[string]*hx     // pathKey+"#"+hex(key) -> last successful write (nil entry = deleted)
-	bad      map[string]bool    // oracle kinds raised
+	r        *gen.R          // decides where the (costly) namespace check runs; nil on the reader of an overlap
+	writes   map[string]*hx  // pathKey+"#"+hex(key) -> last successful write (nil entry = deleted)
+	bad      map[string]bool // oracle kinds raised
 	nsChecks int
 }
 
@@ -603,17 +603,16 @@ func newCtx(writable bool, r *gen.R) *txCtx {
 	return &txCtx{writable: writable, r: r, writes: map[string]*hx{}, bad: map[string]bool{}}
 }
 
-
 // ---------------------------------------------------------------- running steps
 
 type runner struct {
-	dir   string
-	file  string
-	db    walletdb.DB
-	r     *gen.R // oracle sampling only (not part of the input)
-	prev  *tree  // dump after the previous step
-	kinds map[string]bool
-	stuck bool
+	dir      string
+	file     string
+	db       walletdb.DB
+	r        *gen.R // oracle sampling only (not part of the input)
+	prev     *tree  // dump after the previous step
+	kinds    map[string]bool
+	stuck    bool
 	released bool // the reader of the last overlap step had to be released early
 }
 
@@ -742,9 +741,11 @@ func (rn *runner) runTx(kind string, ops []op) (res []result, ret string, end *t
 	return res, ret, end, nil
 }
 
-func commits(kind string) bool   { return kind == "update-ok" || kind == "manual-commit" }
-func readonly(kind string) bool  { return len(kind) >= 4 && kind[:4] == "view" || kind == "manual-read" }
-func rollsBack(kind string) bool { return kind == "update-err" || kind == "update-panic" || kind == "manual-rollback" }
+func commits(kind string) bool  { return kind == "update-ok" || kind == "manual-commit" }
+func readonly(kind string) bool { return len(kind) >= 4 && kind[:4] == "view" || kind == "manual-read" }
+func rollsBack(kind string) bool {
+	return kind == "update-err" || kind == "update-panic" || kind == "manual-rollback"
+}
 
 // judge applies the transaction-level clauses of the property to the dumps.
 func (rn *runner) judge(kind string, pre, end, post *tree) {
@@ -783,7 +784,7 @@ func (rn *runner) usable() bool {
 	select {
 	case e := <-done:
 		return e == nil
-	case <-time.After(3 * time.Second):
+	case <-time.After(1500 * time.Millisecond):
 		rn.stuck = true
 		return false
 	}
@@ -898,7 +899,6 @@ func (rn *runner) runStep(st step) (stepObs, error) {
 	rn.prev = ob.Post
 	return ob, nil
 }
-
 
 // ---------------------------------------------------------------- generator
 
@@ -1452,6 +1452,17 @@ func main() {
 				}
 				if err := json.Unmarshal(raw, &cs); err != nil {
 					return err
+				}
+				// JSON null (Go's nil slice) leaves a pointer field nil
+				for i := range cs.In.Steps {
+					st := &cs.In.Steps[i]
+					for _, ops := range [][]op{st.Ops, st.Before, st.After} {
+						for j := range ops {
+							if ops[j].O == "put" && ops[j].V == nil {
+								ops[j].V = &hx{Nil: true}
+							}
+						}
+					}
 				}
 				res, err := runCase(dir, or, &cs.In, nil, 0)
 				if err != nil {
